@@ -106,11 +106,11 @@ def derived_only(blk):
     return removed
 
 
-def check_solution(blk, series, tol, funcs=None, exact_names=(), k_from=1, k_to=None, C=8.0):
+def check_solution(blk, series, tol, funcs=None, exact_names=(), k_from=1, k_to=None, C=2.0):
     """Offline residual monitor.  Returns (violations, stats).
 
     For every period k>=k_from and every equation of the submitted block: |v - f(v)| <=
-    C*(1+sum_j|df/dx_j|)*tol*S + 1e-12*S;  names in exact_names must satisfy their equation with ==;
+    C*(1+sum_j|df/dx_j|)*tol*S (C=2) + 1e-12*S;  names in exact_names must satisfy their equation with ==;
     lagged[k] == source[k-1];  all values finite real numbers.
     """
     viol = []
